@@ -104,7 +104,7 @@ pub fn build_file(c: &XzCase, orig_check: u8) -> Option<XzFile> {
     match m.f.as_str() {
         "none" => {}
         "hmagic" => f.hmagic_xor = 0x01,
-        "hnull" => f.hflags0 = 0x01,
+        "hnull" => f.hflags0 = m.v as u8,
         "hcrc" => f.hcrc_xor = 0x100,
         "hcheck" => {
             // header announces another check than the one the file was built with
@@ -121,12 +121,12 @@ pub fn build_file(c: &XzCase, orig_check: u8) -> Option<XzFile> {
         }
         "idxCrc" => f.idx_crc_xor = 1,
         "fcrc" => f.fcrc_xor = 0x8000_0000,
-        "fnull" => f.fflags0 = 0x80,
+        "fnull" => f.fflags0 = m.v as u8,
         "fmagic" => f.fmagic_xor = 0x20,
         "idxN" => f.idx_count = Some(m.v as u64),
         "backward" => f.backward = Some(m.v as u32),
         "trailing" => f.trailing = vec![0u8; m.v as usize],
-        "reserved" => f.blocks[bi].flags_or = 0x04,
+        "reserved" => f.blocks[bi].flags_or = m.v as u8,
         "hpad" => f.blocks[bi].hpad_pat = m.v as u8,
         "bhcrc" => f.blocks[bi].hcrc_xor = 1,
         "bpad" => f.blocks[bi].bpad_pat = m.v as u8,
